@@ -800,26 +800,78 @@ def real_tree(code: str, lang: str, owner: Any, I: Any) -> Any:
     return _norm_tpl(parse_target(code, lang))
 
 
-def top_checks(ctx: Ctx, st: Any, src: str, tg: "Target", cases: List[Any], stream: str) -> None:
-    """The condition of the emitted `if (…) {` of `_transpile_invariant` (TypeScript, Java) against `transpileInvariant`."""
-    lang = tg.lang
-    todo = []
-    for owner, inv, real, cfg, e in cases:
-        if real[0] != "ok":
-            continue
-        try:
-            snippet, err = tg.gv._transpile_invariant(invariant=inv, symbol_table=st, environment=tg.env_for(owner))
-        except BaseException:  # noqa: B902
-            continue
-        if snippet is None or not str(snippet).startswith("if (") or " {\n" not in str(snippet):
-            continue
-        cond = str(snippet)[3: str(snippet).index(" {\n")]
-        long = len(real[1]) > 50 or "\n" in real[1]
-        todo.append((owner, inv, cond, cfg, e, long))
-    if not todo or not ctx.driver_ok:
-        return
-    answers = ctx.model([f"inv {lang} {cfg} {'1' if long else '0'} {e}" for _, _, _, cfg, e, long in todo])
-    for (owner, inv, cond, cfg, e, long), ans in zip(todo, answers):
+class EmitBatch:
+    """Real transpiler output of many models, compared with the models in few driver calls."""
+
+    def __init__(self, ctx: Ctx, stream: str = "emit") -> None:
+        self.ctx, self.stream = ctx, stream
+        self.cases: Dict[str, List[Any]] = {lang: [] for lang in LANGS}
+        self.n_models = 0
+
+    def add(self, st: Any, src: str) -> None:
+        from aas_core_codegen import intermediate as I
+
+        ctx, stream = self.ctx, self.stream
+        self.n_models += 1
+        owners = [t for t in st.our_types if isinstance(t, (I.ConstrainedPrimitive, I.AbstractClass, I.ConcreteClass))]
+        for lang in LANGS:
+            tg = Target(lang, st)
+            for owner in owners:
+                for inv in owner.invariants:
+                    if inv.specified_for is not owner:
+                        continue
+                    e_wire = expr_wire.enc(mm.expr_from_project_tree(inv.body))
+                    try:
+                        code, type_map, opt, err = tg.real(owner, inv)
+                    except BaseException as ex:  # noqa: B902
+                        if isinstance(ex, KeyboardInterrupt):
+                            raise
+                        code, type_map, opt, err = None, None, None, crash_name(ex)
+                    if type_map is None:
+                        ctx.hit(f"{stream}:{lang}:no-type-map")
+                        continue
+                    try:
+                        cfg = tg.cfg(inv.body, type_map, opt or {})
+                    except Ambiguous:
+                        ctx.hit(f"{stream}:{lang}:ambiguous-key")
+                        continue
+                    real = ("ok", code) if code is not None else (("crash", err) if isinstance(err, str) else ("err", str(err)[:200]))
+                    top = None
+                    if real[0] == "ok" and lang in ("ts", "java"):
+                        try:
+                            snippet, _ = tg.gv._transpile_invariant(invariant=inv, symbol_table=st, environment=tg.env_for(owner))
+                        except BaseException:  # noqa: B902
+                            snippet = None
+                        if snippet is not None and str(snippet).startswith("if (") and " {\n" in str(snippet):
+                            top = (str(snippet)[3: str(snippet).index(" {\n")], len(real[1]) > 50 or "\n" in real[1])
+                    self.cases[lang].append((tg, owner, inv, real, cfg, e_wire, src, top))
+        if self.n_models >= 25:
+            self.flush()
+
+    def flush(self) -> None:
+        from aas_core_codegen import intermediate as I
+
+        ctx, stream = self.ctx, self.stream
+        for lang in LANGS:
+            cases = self.cases[lang]
+            self.cases[lang] = []
+            if not cases:
+                continue
+            tops = [c for c in cases if c[7] is not None]
+            lines = [f"emit {lang} {cfg} 0 {e}" for _, _, _, _, cfg, e, _, _ in cases] + \
+                    [f"inv {lang} {cfg} {'1' if top[1] else '0'} {e}" for _, _, _, _, cfg, e, _, top in tops]
+            answers = ctx.model(lines) if ctx.driver_ok else [None] * len(lines)
+            for (tg, owner, inv, real, cfg, e, src, top), ans in zip(cases, answers[:len(cases)]):
+                self.judge_one(lang, tg, owner, inv, real, cfg, e, src, ans, I)
+            for (tg, owner, inv, real, cfg, e, src, top), ans in zip(tops, answers[len(cases):]):
+                self.judge_top(lang, tg, owner, inv, cfg, e, src, top, ans)
+        self.n_models = 0
+
+    def judge_top(self, lang: str, tg: "Target", owner: Any, inv: Any, cfg: str, e: str, src: str, top: Any, ans: Any) -> None:
+        ctx, stream = self.ctx, self.stream
+        cond, long = top
+        if ans is None:
+            return
         ctx.count((lang, "top", e, cfg), nontrivial=True, stream=f"{stream}:{lang}:top")
         ctx.traces_validated += 1
         inp = {"model": src, "target": lang, "owner": str(owner.name), "invariant": inv.description,
@@ -829,94 +881,67 @@ def top_checks(ctx: Ctx, st: Any, src: str, tg: "Target", cases: List[Any], stre
         except ParseError as pe:
             ctx.fail(inp, f"the condition of the emitted {lang} `if` is outside the expression grammar of the target: {pe}: {cond!r}",
                      f"C09:emitted-syntax:{lang}")
-            continue
+            return
         if not ans.startswith("ok "):
             ctx.disagree(f"{stream}:{lang}:top", inp, cond, ans)
-            continue
+            return
         try:
             mtree = ("paren", _norm_tpl(tg.tree(ans.split(" ")[1].split(","), owner)))
         except ParseError as pe:
             ctx.disagree(f"{stream}:{lang}:top", inp, cond, f"model output cannot be rendered: {pe}")
-            continue
+            return
         ctx.hit(f"{stream}:{lang}:top:{'long' if long else 'short'}")
         if mtree != rtree:
             ctx.disagree(f"{stream}:{lang}:top", inp, cond, show_tree(mtree))
 
+    def judge_one(self, lang: str, tg: "Target", owner: Any, inv: Any, real: Any, cfg: str, e: str, src: str, ans: Any, I: Any) -> None:
+        ctx, stream = self.ctx, self.stream
+        ctx.count((lang, e, cfg), nontrivial=e.count(",") > 3, stream=f"{stream}:{lang}")
+        inp = {"model": src, "target": lang, "owner": str(owner.name), "invariant": inv.description,
+               "expr": mm.render_expr(mm.expr_from_project_tree(inv.body))}
+        ctx.hit(f"{stream}:{lang}:real-{real[0]}")
+        rtree = None
+        if real[0] == "ok":
+            try:
+                rtree = real_tree(real[1], lang, owner, I)
+            except ParseError as pe:
+                ctx.fail(inp, f"the emitted {lang} expression is outside the expression grammar of the target: {pe}: {real[1]!r}",
+                         f"C09:emitted-syntax:{lang}")
+                return
+        if ans is None:
+            return
+        ctx.traces_validated += 1
+        if not ans.startswith("ok "):
+            if ans != real[0]:
+                ctx.disagree(f"{stream}:{lang}", inp, real[1] if real[0] == "ok" else real[0], ans)
+            return
+        if real[0] != "ok":
+            ctx.disagree(f"{stream}:{lang}", inp, real[0] + ": " + str(real[1]), ans[:200])
+            return
+        _, wire, _stripped = ans.split(" ")
+        try:
+            mtree = _norm_tpl(tg.tree(wire.split(","), owner))
+        except ParseError as pe:
+            ctx.disagree(f"{stream}:{lang}", inp, real[1], f"model output cannot be rendered: {pe}")
+            return
+        for k in wire.split(","):
+            if k in ("U", "X", "Z", "N", "I", "Q", "S", "M", "G", "c", "!", "B", "b", "J", "q", "P", "A", "L", "K"):
+                ctx.hit(f"{stream}:{lang}:node:{k}")
+        if ctx.evaluations % 37 == 0:
+            ctx.sample({"target": lang, "expr": inp["expr"], "emitted": real[1]})
+        if mtree == rtree:
+            return
+        if strip_parens(mtree) == strip_parens(rtree):
+            ctx.disagree(f"{stream}:{lang}-parens", inp, real[1], show_tree(mtree))
+        else:
+            ctx.disagree(f"{stream}:{lang}", inp, real[1], show_tree(mtree))
+
 
 def emit_checks(ctx: Ctx, st: Any, src: str, stream: str = "emit") -> None:
     """Every invariant of the symbol table through the three real transpilers and the three models."""
-    from aas_core_codegen import intermediate as I
-
-    owners = [t for t in st.our_types if isinstance(t, (I.ConstrainedPrimitive, I.AbstractClass, I.ConcreteClass))]
-    for lang in LANGS:
-        tg = Target(lang, st)
-        cases: List[Tuple[Any, Any, Any, str, str]] = []
-        for owner in owners:
-            for inv in owner.invariants:
-                if inv.specified_for is not owner:
-                    continue
-                e_wire = expr_wire.enc(mm.expr_from_project_tree(inv.body))
-                try:
-                    code, type_map, opt, err = tg.real(owner, inv)
-                except BaseException as ex:  # noqa: B902
-                    if isinstance(ex, KeyboardInterrupt):
-                        raise
-                    code, type_map, opt, err = None, None, None, crash_name(ex)
-                if type_map is None:
-                    ctx.hit(f"{stream}:{lang}:no-type-map")
-                    continue
-                try:
-                    cfg = tg.cfg(inv.body, type_map, opt or {})
-                except Ambiguous:
-                    ctx.hit(f"{stream}:{lang}:ambiguous-key")
-                    continue
-                real = ("ok", code) if code is not None else (("crash", err) if isinstance(err, str) else ("err", str(err)[:200]))
-                cases.append((owner, inv, real, cfg, e_wire))
-        if not cases:
-            continue
-        if lang in ("ts", "java"):
-            top_checks(ctx, st, src, tg, cases, stream)
-        answers = ctx.model([f"emit {lang} {cfg} 0 {e}" for _, _, _, cfg, e in cases]) if ctx.driver_ok else [None] * len(cases)
-        for (owner, inv, real, cfg, e), ans in zip(cases, answers):
-            ctx.count((lang, e, cfg), nontrivial=e.count(",") > 3, stream=f"{stream}:{lang}")
-            inp = {"model": src, "target": lang, "owner": str(owner.name), "invariant": inv.description,
-                   "expr": mm.render_expr(mm.expr_from_project_tree(inv.body))}
-            ctx.hit(f"{stream}:{lang}:real-{real[0]}")
-            rtree = None
-            if real[0] == "ok":
-                try:
-                    rtree = real_tree(real[1], lang, owner, I)
-                except ParseError as pe:
-                    ctx.fail(inp, f"the emitted {lang} expression is outside the expression grammar of the target: {pe}: {real[1]!r}",
-                             f"C09:emitted-syntax:{lang}")
-                    continue
-            if ans is None:
-                continue
-            ctx.traces_validated += 1
-            if not ans.startswith("ok "):
-                if ans != real[0]:
-                    ctx.disagree(f"{stream}:{lang}", inp, real[1] if real[0] == "ok" else real[0], ans)
-                continue
-            if real[0] != "ok":
-                ctx.disagree(f"{stream}:{lang}", inp, real[0] + ": " + str(real[1]), ans[:200])
-                continue
-            _, wire, _stripped = ans.split(" ")
-            try:
-                mtree = _norm_tpl(tg.tree(wire.split(","), owner))
-            except ParseError as pe:
-                ctx.disagree(f"{stream}:{lang}", inp, real[1], f"model output cannot be rendered: {pe}")
-                continue
-            for k in wire.split(","):
-                if k in ("U", "X", "Z", "N", "I", "Q", "S", "M", "G", "c", "!", "B", "b", "J", "q", "P", "A", "L", "K"):
-                    ctx.hit(f"{stream}:{lang}:node:{k}")
-            if ctx.evaluations % 37 == 0:
-                ctx.sample({"target": lang, "expr": inp["expr"], "emitted": real[1]})
-            if mtree == rtree:
-                continue
-            if strip_parens(mtree) == strip_parens(rtree):
-                ctx.disagree(f"{stream}:{lang}-parens", inp, real[1], show_tree(mtree))
-            else:
-                ctx.disagree(f"{stream}:{lang}", inp, real[1], show_tree(mtree))
+    b = EmitBatch(ctx, stream)
+    b.add(st, src)
+    b.flush()
 
 
 # --------------------------------------------------------------------------- inputs
@@ -1088,13 +1113,15 @@ def sources(ctx: Ctx) -> Iterator[Tuple[str, str, Any]]:
 
 
 def stream_emit(ctx: Ctx) -> None:
+    batch = EmitBatch(ctx, "emit")
     for stream, src, label in sources(ctx):
         st, err = mm.load(src)
         if st is None:
             ctx.hit(f"model:{stream}:rejected")
             continue
         ctx.hit(f"model:{stream}:accepted")
-        emit_checks(ctx, st, src, "emit")
+        batch.add(st, src)
+    batch.flush()
 
 
 def correspond(ctx: Ctx) -> None:
@@ -1215,7 +1242,8 @@ def ts_constants(text: str, scratch: pathlib.Path) -> Any:
     f.write_text(js, encoding="utf-8")
     rc, out, err = _run(["node", str(f)], scratch)
     if rc != 0:
-        return {"error": err.strip().splitlines()[-1][:300] if err.strip() else "node failed"}
+        lines = [ln for ln in err.splitlines() if "Error" in ln]
+        return {"error": (lines[0] if lines else (err.strip().splitlines() or ["node failed"])[-1])[:300]}
     return json.loads(out)
 
 
@@ -1598,6 +1626,12 @@ def judge(ob: Observed, dec: Dict[Tuple[str, str], Any]) -> List[Tuple[str, str,
                 bad.append(("C09:constant:java:float32", "a float constant of the Python SDK is outside the range of the 32-bit `Float` "
                             "of the Java SDK (javac: " + got["error"] + ")", {"target": lang}))
                 continue
+            if lang == "ts" and any(ch in x for _, pv in ref["consts"].values() for x in (pv if isinstance(pv, list) else [pv])
+                                    if isinstance(x, str) for ch in _LINE_BREAKS):
+                # C09-F4: a raw line boundary inside a literal of a set is split by the re-indentation of the block
+                bad.append(("C09:constant:ts:line-separator", "a string of a TypeScript constant holds a line boundary other than LF and is "
+                            "broken by the re-indentation of the generated block (node: " + got["error"] + ")", {"target": lang}))
+                continue
             bad.append((f"C09:constant:{lang}:compile", f"the generated {lang} constants do not compile / run stand-alone: {got['error']}",
                         {"target": lang}))
             continue
@@ -1620,6 +1654,9 @@ def judge(ob: Observed, dec: Dict[Tuple[str, str], Any]) -> List[Tuple[str, str,
             tk = "set" if kind == "set" else want[0][0]
             if not _same_items(lang, want, gvals, kind == "set"):
                 f32 = lang == "java" and all(w[0] == "f" for w in want) and _same_items(lang, [("f", _f32(w[1])) for w in want], gvals, kind == "set")
+                brk = any(isinstance(x, str) and any(ch in x for ch in _LINE_BREAKS) for x in (pv if kind == "set" else [pv]))
+                if brk:
+                    tk = "line-separator"  # C09-F4: the re-indentation of the generated block splits / pads the literal
                 bad.append((f"C09:constant:{lang}:{'float32' if f32 else tk}",
                             f"constant {c.name}: Python SDK has {want!r}, the {lang} SDK has {gvals!r}", {"target": lang, "constant": str(c.name)}))
     # ---- enumeration literals
@@ -1914,7 +1951,7 @@ def ts_differential_prepare(ctx: Ctx, m: Any, sdk: Any, st: Any, n_instances: in
     from aas_core_codegen.parse import tree as T
     from aas_core_codegen.python import naming as pn
     from aas_core_codegen.typescript import naming as tn
-    from harness.props.c08 import run_verify
+    from harness.props.c08 import run_verify, time_limit
 
     tg = Target("ts", st)
     st_info: Dict[str, Any] = {"enum_by_py": {}, "cls_by_py": {}}
@@ -1963,7 +2000,14 @@ def ts_differential_prepare(ctx: Ctx, m: Any, sdk: Any, st: Any, n_instances: in
         root_cls = next((str(t.name) for t in owners if str(pn.class_name(t.name)) == type(inst).__name__), None)
         if root_cls is None or not emitted.get(root_cls):
             continue
-        errs, raised, _ = run_verify(sdk, inst)
+        try:
+            with time_limit(2.0):
+                errs, raised, _ = run_verify(sdk, inst)
+        except BaseException as ex:  # noqa: B902
+            if isinstance(ex, KeyboardInterrupt):
+                raise
+            ctx.hit("oracle:tsdiff:verify-timeout")
+            continue
         if raised:
             continue
         try:
@@ -1986,8 +2030,11 @@ def ts_differential_prepare(ctx: Ctx, m: Any, sdk: Any, st: Any, n_instances: in
         tab = {}
         for sx in strings:
             try:
-                r = pyf(sx)
-            except BaseException:  # noqa: B902
+                with time_limit(0.5):  # a pattern may backtrack catastrophically on a string it was not written for
+                    r = pyf(sx)
+            except BaseException as ex:  # noqa: B902
+                if isinstance(ex, KeyboardInterrupt):
+                    raise
                 continue
             if isinstance(r, bool):
                 tab[sx] = r
